@@ -149,7 +149,8 @@ class Node:
 class Leaf(Node):
     def __init__(self, values):
         self.s = frozenset(int(v) for v in values)
-        assert self.s and all(v >= 0 for v in self.s)
+        if not (self.s and all(v >= 0 for v in self.s)):  # not an assert statement: workers may run under python -O
+            raise AssertionError('self.s and all(v >= 0 for v in self.s)')
         self.lo, self.hi = min(self.s), max(self.s)
 
     def _mm(self, m):
@@ -167,7 +168,8 @@ class Leaf(Node):
 
 class Cat(Node):
     def __init__(self, *ch: Node):
-        assert ch
+        if not (ch):  # not an assert statement: workers may run under python -O
+            raise AssertionError('ch')
         self.ch = ch
         self.lo = sum(c.lo for c in ch)
         self.hi = sum(c.hi for c in ch)
@@ -200,7 +202,8 @@ class Cat(Node):
 
 class Uni(Node):
     def __init__(self, *ch: Node):
-        assert ch
+        if not (ch):  # not an assert statement: workers may run under python -O
+            raise AssertionError('ch')
         self.ch = ch
         self.lo = min(c.lo for c in ch)
         self.hi = max(c.hi for c in ch)
@@ -239,7 +242,8 @@ def _pow_mask(base: int, k: int, m: int) -> int:
 
 class Rep(Node):
     def __init__(self, a: Node, k: int):
-        assert k >= 0
+        if not (k >= 0):  # not an assert statement: workers may run under python -O
+            raise AssertionError('k >= 0')
         self.a, self.k = a, int(k)
         self.lo, self.hi = a.lo * self.k, a.hi * self.k
 
@@ -268,7 +272,8 @@ class Rep(Node):
 
 class Rng(Node):
     def __init__(self, a: Node, k: int):
-        assert k >= 0
+        if not (k >= 0):  # not an assert statement: workers may run under python -O
+            raise AssertionError('k >= 0')
         self.a, self.k = a, int(k)
         self.lo, self.hi = 0, a.hi * self.k
 
@@ -302,7 +307,8 @@ class Rng(Node):
 
 class Pad(Node):
     def __init__(self, a: Node, r: int):
-        assert r >= 1
+        if not (r >= 1):  # not an assert statement: workers may run under python -O
+            raise AssertionError('r >= 1')
         self.a, self.r = a, int(r)
         self.lo, self.hi = self._pad(a.lo), self._pad(a.hi)
 
